@@ -8,6 +8,7 @@ C(sh, vals, T) == {[shape |-> sh, bn |-> b[1], bd |-> b[2], vals |-> vals, T |->
 MC_Cfgs == C(<<2>>, {-1, 0, 1, 2}, 3) \cup C(<<3>>, {0, 1, 2}, 3)
            \cup C(<<2, 2>>, {0, 1, 2}, 2) \cup C(<<2, 2>>, {0, 1}, 3) \cup C(<<2, 3>>, {0, 2}, 2)
            \cup C(<<2, 3>>, {0, 1, 2}, 1) \cup C(<<2, 2, 2>>, {0, 2}, 1) \cup C(<<2, 2, 2>>, {0, 1}, 2)
+MCV_Cfgs == C(<<3>>, {-1, 0, 2}, 2) \cup C(<<2, 2>>, {0, 1, 2}, 2)
 MCT_Cfgs == MC_Cfgs \cup C(<<2, 2>>, {0, 1, 2}, 3) \cup C(<<2, 2>>, {-1, 0, 1, 2}, 2)
             \cup C(<<2, 3>>, {0, 1, 2}, 2) \cup C(<<3, 2>>, {0, 1, 3}, 2)
             \cup C(<<2, 2, 2>>, {0, 2}, 2) \cup C(<<2, 2, 2>>, {0, 1, 2}, 1)
